@@ -24,7 +24,8 @@ TIMEOUT = 150
 # ------------------------------------------------------------------ helpers
 
 def _norm(e):
-    return {"ev": e["ev"], "run": e["run"], "var": {"prog": e["var"]["prog"], "on": sorted(e["var"]["on"]), "route": e["var"].get("route", "plain")},
+    return {"ev": e["ev"], "run": e["run"], "var": {"prog": e["var"]["prog"], "on": sorted(e["var"]["on"]), "route": e["var"].get("route", "plain"),
+                                                         "inout": e["var"].get("inout", "no")},
             "target": e["target"], "fs": dict(e["fs"]), "queue": [dict(q) for q in e["queue"]], "loose": sorted(e["loose"])}
 
 
@@ -74,11 +75,11 @@ def case_from_hist(hist, cid, hist_mode=False, seed=0):
     nbk = sum(1 for k in first["fs"] if k.startswith("b"))
     init = {k: v for k, v in first["fs"].items() if k not in ("other",) and v != "absent"}
     return {"id": cid, "names": names, "nbk": nbk, "init": init, "runs": runs, "seed": seed, "instrument": True,
-            "route": first["var"].get("route", "plain")}
+            "route": first["var"].get("route", "plain"), "inout": first["var"].get("inout", "no")}
 
 
 def case_key(case):
-    return json.dumps([[r["prog"], r["on"], r["target"], r["crash"]] for r in case["runs"]] + [sorted(case["init"].items()), case.get("route", "plain")])
+    return json.dumps([[r["prog"], r["on"], r["target"], r["crash"]] for r in case["runs"]] + [sorted(case["init"].items()), case.get("route", "plain"), case.get("inout", "no")])
 
 
 def _ref_job(arg):
@@ -228,8 +229,12 @@ def random_cases(n, sd, nslow=0):
             names["out"], init, no_parent = "no_such_dir/" + Path(stem).name + ext, {}, True
         if no_parent:
             route = "plain"
+        inout = "no"
+        if (init.get("out") == "old" and route == "plain" and "/" not in stem and not no_parent and rng.random() < 0.4
+                and key in ("gc_full", "gc_coords_bld", "gp_min", "gp_p3ht", "gp_ps_json", "gp_ppi", "gp_bad_res", "gp_bad_seq")):
+            inout, init["out"] = rng.choice(["same", "link", "dots"]), "inp"   # the run reads an input from the output path
         cases.append({"id": "t%04d" % i, "names": names, "nbk": TNBK, "init": init, "seed": sd, "instrument": True, "no_parent": no_parent,
-                      "route": route,
+                      "route": route, "inout": inout,
                       "runs": [{"prog": prog, "on": sorted(on), "input": key, "target": "out", "crash": crash,
                                 "exc": rng.choice(["Exception", "BaseException"])}]})
     return cases
@@ -396,6 +401,8 @@ DEVS = [("Out_dev_plainopen.cfg", "NoEarlyEffect", "output opened with open() in
         ("Out_dev_linkdirect.cfg", "NoEarlyEffect", "an output path that is a symbolic link is written through: the link target is truncated before success (seed-C20-1)"),
         ("Out_dev_linkdirect_succ.cfg", "BackupResolves", "symbolic link written through: previous content not under a backup name after success (seed-C20-1)"),
         ("Out_dev_bkcount.cfg", "OthersKept", "backup index = count of existing backups + 1: a non-contiguous backup set gets an existing backup overwritten (seed-C20-2)"),
+        ("Out_dev_inplace.cfg", "NoEarlyEffect", "output path holds an input of the run and is updated in place: truncated when serialisation fails (seed3-C20-2)"),
+        ("Out_dev_inplace_succ.cfg", "SuccessState", "output path holds an input of the run and is updated in place: previous bytes not under a backup name (seed3-C20-2)"),
         ("Out_dev_routediscard.cfg", "SuccessState", "own queue entry not recognised when the output path runs through a symlinked directory: nothing is written (seed2-C20-1)")]
 # the same flags against further properties (thorough tier)
 DEVS_MORE = [("Out_dev_plainopen_succ.cfg", "SuccessState", "output opened with open(): no backup of the previous file"),
@@ -451,7 +458,7 @@ def run(tier):
 
     # ---- S -> I
     hists = export.cases()
-    if len(hists) < 5000:
+    if len(hists) < 6000:
         raise c.MachineryError("Output_Export produced only %d behaviours" % len(hists))
     inside = [h for h in hists if h[-1]["ev"]["when"] == "inside"]
     hists = [h for h in hists if h[-1]["ev"]["when"] != "inside"]
@@ -463,11 +470,22 @@ def run(tier):
         rng = random.Random(sd)
         groups = {}
         for h in hists:
-            groups.setdefault(json.dumps([h[0]["var"]["prog"], sorted(h[0]["var"]["on"]), h[0]["var"]["route"] == "plain", h[-1]["ev"]], sort_keys=True), []).append(h)
+            groups.setdefault(json.dumps([h[0]["var"]["prog"], sorted(h[0]["var"]["on"]), h[0]["var"]["route"] == "plain", h[0]["var"]["inout"] == "no", h[-1]["ev"]], sort_keys=True), []).append(h)
         sel = []
         for k in sorted(groups):
             g = sorted(groups[k], key=lambda h: json.dumps(h[0]["fs"], sort_keys=True))
             last = g[0][-1]["ev"]
+            if g[0][0]["var"]["inout"] != "no":
+                # the output path holds an input of the run (3 ways of naming it x 3 initial directories = 9 per crash point):
+                # all 9 for success and the end of the flush, 3 (one per way) around serialisation / flush, 1 for work stages
+                if last["kind"] == "finish" or (last["stage"], last["when"]) == ("flush", "after"):
+                    sel += g
+                elif last["stage"] in ("open", "write", "flush"):
+                    for k in ("same", "link", "dots"):
+                        sel += rng.sample([h for h in g if h[0]["var"]["inout"] == k], 1)
+                else:
+                    sel += rng.sample(g, 1)
+                continue
             if g[0][0]["var"]["route"] != "plain":
                 # other spellings of the output path (3 routes x fresh / existing / existing + backup = 9 per crash point):
                 # all 9 where the result is committed, 1 of them elsewhere
